@@ -49,6 +49,15 @@ theorem C17_reconcile_keeps_records (fs : Files) (wf wo hi : Nat) (loc : Loc) (f
 
 example : regionOf (truncateTo [some [1, 2, 3, 4, 5, 6], some [9, 9]] 0 4 1) ⟨0, 1, 3⟩ = some [2, 3, 4] := by decide
 
+/-- **A crash inside the reconciliation itself** (`handleRollback` run by `reconcileDB`: crash points
+    after each file deletion, before and after the truncation): at every point where it can die,
+    and when it completes, every byte range below the persisted cursor is untouched — so the next
+    reopen finds the same durable blocks and simply reconciles again. -/
+theorem C17_rollback_keeps_records (fs : FS) (wf wo sf : Nat) (loc : Loc) (f : List UInt8)
+    (hf : fileAt fs.files wf = some f) (hwo : wo ≤ f.length) (hb : Below wf wo loc) :
+    regionOf (rollback fs wf wo sf).1.files loc = regionOf fs.files loc :=
+  rollback_keeps_records fs wf wo sf loc f hf hwo hb
+
 /-- `commitTx` under a crash at any of its points: leveldb ends up in one of three states —
     untouched (`L0`), `L0` plus the cache of earlier commits (`L1`), or `L1` plus the whole
     transaction (`L2`).  When it runs to completion on the flush path (always the case with a
